@@ -21,11 +21,16 @@ class RichProblem(gen.Problem):
         if self.S in ("Int", "Real") and not self.dl and d > 0:
             if c < 0.10:
                 return ("app", "ite", self.S, [self.fla(1), self.nterm(d - 1), self.nterm(d - 1)])
+            if c < 0.13 and len(self.nums) >= 3:
+                # weighted sums over three or more variables with composite coefficients (gcd normalisation, tightening)
+                vs = r.sample(self.nums, r.randint(3, min(4, len(self.nums))))
+                ks = [r.choice([2, 3, 4, 6, 9, 10, 12, 15, -2, -3, -4, -6, -9, -10]) for _ in vs]
+                return ("app", "+", self.S, [("app", "*", self.S, [("num", Fraction(k), self.S), v]) for k, v in zip(ks, vs)])
             if c < 0.16 and self.S == "Int":
                 k = r.choice([2, 3, -2, 5, 1, -1])
                 return ("app", r.choice(["div", "mod"]), "Int", [self.nterm(d - 1), ("num", Fraction(k), "Int")])
             if c < 0.20 and self.S == "Real":
-                k = r.choice([2, 3, -2, 4])
+                k = r.choice([2, 3, -2, 4, 1, -1, -1])
                 return ("app", "/", "Real", [self.nterm(d - 1), ("num", Fraction(k), "Real")])
             if c < 0.24:
                 return ("app", "-", self.S, [self.nterm(d - 1)])
@@ -118,6 +123,14 @@ def run_case(args):
                 break
     ufd = termeval.uf_defs(sc.table, rng)
     asgs = termeval.grid(sc.table, rng, 24)
+    # a systematic sweep of small values of the numeric constants: boundary cases of (tightened / normalised) comparisons
+    numc = [name for name, (k, asorts, rs) in sc.table.decls.items() if not asorts and rs in ("I", "R")]
+    if 0 < len(numc) <= 3 and "(* " in script:
+        import itertools
+        for combo in itertools.product((-1, 0, 1, 2), repeat=len(numc)):
+            a = dict(rng.choice(asgs[:24]))
+            a.update({n: Fraction(v) for n, v in zip(numc, combo)})
+            asgs.append(a)
     ids = [x for pr in pairs for x in pr]
     vals = termeval.eval_under(sc.table, asgs, ids, fun_defs=ufd)
     res["terms"] = len(pairs)
